@@ -1,11 +1,17 @@
 #!/bin/sh
-# for every kept seed: apply to a scratch copy of /repo HEAD, run the checks that should flag it, report
+# for every kept seed: apply to a scratch copy of /repo HEAD, run the checks that should flag it, report;
+# seeds whose meta lists `undecided_in` must end those checks with exit 2 (ANALYSIS-ERROR) and no VIOLATION line
 cd /verif
 for d in seeded/C*; do
   id=$(basename $d)
   props=$(/venv/bin/python -c "import json;print(' '.join(json.load(open('$d/meta.json'))['detected_by']))" 2>/dev/null | tail -1)
+  und=$(/venv/bin/python -c "import json;print(' '.join(json.load(open('$d/meta.json')).get('undecided_in', [])))" 2>/dev/null | tail -1)
   for p in $props; do
     n=$(tools/try_patch.sh /verif/$d/patch.diff $p | grep -c VIOLATION)
     echo "$id $p violations=$n"
+  done
+  for p in $und; do
+    o=$(tools/try_patch.sh /verif/$d/patch.diff $p)
+    echo "$id $p undecided=$(echo "$o" | grep -c ANALYSIS-ERROR) violations=$(echo "$o" | grep -c VIOLATION)"
   done
 done
